@@ -390,6 +390,10 @@ def run(chk: Check, eng: Engine) -> None:
     from .c11 import gethash_rule
 
     gethash_rule(chk, eng, "R07-g")
+    chk.rule("R07-m", "constraint expressions are evaluated in one namespace: the variables bound to the matches are visible inside the generator expressions / lambdas "
+             "of the expression (any / all comprehensions are part of the documented constraint language)", floor=4)
+    from .c08 import single_namespace_rule
+    single_namespace_rule(chk, eng, "R07-m")
     chk.rule("R07-l", "quantifiers write their bound variable only into dictionaries they own (copies made in the same call)", floor=4)
     from . import common_fitness as _cfo
     _cfo.owned_binding_rule(chk, eng, "R07-l")
@@ -424,6 +428,7 @@ _EX = "src/fandango/constraints/exists.py"
 _IMP = "src/fandango/constraints/implication.py"
 _S = "src/fandango/language/search.py"
 MUTANTS = [
+    M("matches-bound-as-eval-locals", "src/fandango/constraints/constraint.py", "        return eval(expression, {**global_variables, **local_variables})\n", "        return eval(expression, global_variables, local_variables)\n", "R07-m"),
     M("exists-binds-into-callers-scope", "src/fandango/constraints/exists.py", "        scope = dict(scope or {})\n        local_variables = dict(local_variables or {})\n", "        scope = scope or dict()\n        local_variables = local_variables or dict()\n", "R07-l"),
     M("forall-domain-without-scope", "src/fandango/constraints/forall.py", "        for container in self.search.quantify(tree, scope=scope):\n", "        for container in self.search.quantify(tree):\n", "R07-k"),
     M("implication-consequent-without-locals", "src/fandango/constraints/implication.py", "            fitness = copy(self.consequent.fitness(tree, scope, local_variables))", "            fitness = copy(self.consequent.fitness(tree, scope))", "R07-k"),
